@@ -102,6 +102,9 @@ func voteAction(w *world.World, mw *msWallet, pid string, to string, amount curr
 	if strings.Contains(tag, "garbage-sig") {
 		sig = sig[:len(sig)-2] + "00"
 	}
+	if strings.Contains(tag, "upper-case-sig") {
+		sig = strings.ToUpper(sig) // another spelling of the same signature (Verify accepts it)
+	}
 	v := multisigsc.Vote{ProposalID: pid, Transfer: tr, Signature: sig}
 	name := fmt.Sprintf("vote(%s,%s,%s->%s:%d)%s", sender.Name, pid, mw.Name, to, amount, tag)
 	always := strings.Contains(tag, "also-when-unregistered")
@@ -325,6 +328,7 @@ func multisigScenario(run *ev.Run) (*scenario, []*msWallet) {
 		voteAction(w, wA, "P1", "c1", 5, w.Actors["c1"], w.Actors["c1"], "[non-signer]"),
 		voteAction(w, wA, "P1", "c1", 5, s(wA, 1), s(wA, 2), "[signature-of-other-signer]"),
 		voteAction(w, wA, "P1", "c1", 5, s(wA, 2), s(wA, 2), "[garbage-sig]"),
+		voteAction(w, wA, "P1", "c1", 5, s(wA, 1), s(wA, 1), "[upper-case-sig]"),
 		voteAction(w, wA, "P1", "c1", 5, w.Actors["c0"], w.Actors["c0"], "[wallet-owner-itself]"),
 		voteAction(w, wA, "P2", "c2", bal+1, s(wA, 1), s(wA, 1), "[above-balance]"),
 		voteAction(w, wA, "P2", "c2", bal+1, s(wA, 2), s(wA, 2), "[above-balance]"),
